@@ -160,7 +160,7 @@ def main():
         "version": 1,
         "setup_cmd": "./setup.sh",
         "hooks": {"guard": "GMSSL_VERIF", "enable": "checks configure /repo with CMake into /verif/build/lib_<variant> with -DGMSSL_VERIF in CMAKE_C_FLAGS (no source hooks exist: all observation is at the public API, the wire, getentropy/time interposition and sanitizers)",
-                  "baseline_off_cmd": "cmake -S /repo -B /tmp/gmssl_baseline -G Ninja >/dev/null && cmake --build /tmp/gmssl_baseline >/dev/null && ctest --test-dir /tmp/gmssl_baseline -j8 --timeout 900; rc=$?; rm -rf /tmp/gmssl_baseline; exit $rc",
+                  "baseline_off_cmd": "cmake -S /repo -B /tmp/gmssl_baseline -G Ninja >/dev/null && cmake --build /tmp/gmssl_baseline >/dev/null && ctest --test-dir /tmp/gmssl_baseline -j8 --timeout 900 -E 'tlcp_commands|tls12_commands|tls13_commands'; rc=$?; rm -rf /tmp/gmssl_baseline; exit $rc",
                   "source_commits": [], "add_only": True},
         "engines": [{"name": "tlc", "path": "tools/vlib.py", "serves_properties": sorted(CLAIMS), "kind_free_text": "TLA+ specifications in spec/ checked by TLC (exhaustive small models, liveness, behaviour generation) and bound to the code by trace validation / replay through C drivers in harness/"}],
         "checks": checks,
